@@ -20,7 +20,14 @@ namespace PedVerif.Utility
 open PedVerif.Gen.Wrappers
 
 local macro "usimp" : tactic => `(tactic| simp [invoke, call, callLayer, select, findWrapper, runWrapper, execL, exec, execCall, calleeSem,
-    mkFrame, mkArgs, bindVar, evalExpr, evalCond, evalCmp, lookup, awaitVal, bodyObs, isBodyOf, Res.tag, Val.pyEq, Val.pyIs, gap, runBody, World.count, World.bump, outcRes, *])
+    mkFrame, mkArgs, bindVar, evalExpr, evalCond, evalCmp, lookup, awaitVal, bodyObs, isBodyOf, Res.tag, Val.pyEq, Val.pyIs, gap, runBody, World.count, World.bump, outcRes,
+    fmtRaises, fmtOneRaises, valFmtRaises, idsReprRaise, condRaises, cmpRaises, objCmpRaises, *])
+
+/- the predicates of the call layer that the guard of `require_kwargs` is made of are the generated ones (`Gen/CallTables.lean`,
+   translated from `DecoratedFunction.should_have_kwargs` / `FunctionCall.args_without_self`): unfolded wherever the guard is evaluated -/
+attribute [local simp] PedVerif.Gen.CallTables.shouldHaveKwargs PedVerif.Gen.CallTables.stripsFirst PedVerif.Gen.CallTables.usesMultiple
+  PedVerif.Gen.CallTables.maxAllowed PedVerif.Gen.CallTables.stripFrom PedVerif.Gen.CallTables.assertUsesKwargsRaises
+  PedVerif.Gen.CallTables.kwargsOnlyInvocation Guard.strips
 
 theorem call_coro_shape : ∀ (f : Fn), f.isCoro = true → ∀ a w,
     (∃ run, call f a w = (.ret (.coro run), [], w)) ∨ (∃ c, call f a w = (.exc (.lib c), [], w)) := by
@@ -33,6 +40,7 @@ theorem call_coro_shape : ∀ (f : Fn), f.isCoro = true → ∀ a w,
     split
     · right; exact ⟨_, rfl⟩
     · left; simp [h]
+  | gen g => intro h; simp [Fn.isCoro] at h
   | bound s i ih =>
     intro h a w
     simp only [Fn.isCoro] at h
@@ -74,22 +82,85 @@ local macro "transparency" d:ident : tactic => `(tactic| (
       | ret v => cases v <;> (simp [$d:ident]; usimp)
     · simp [$d:ident]; usimp))
 
-/-- **trace, timer, count_calls, deprecated, trace_if_returns are transparent** — unconditionally: over every callable, for all
-    arguments, outcomes and flavours (the sync wrapper over a coroutine function hands the coroutine through un-awaited, the
-    async wrapper awaits exactly once) -/
-theorem transparent_trace : TransparentOn dTrace Always := by transparency dTrace
+/-- the result the wrapper gets to see: of the call for a plain function, of the awaited call for a coroutine function -/
+def seenResult (inner : Fn) (a : Args) (w : World) : Out := if inner.isCoro then invoke inner a w else call inner a w
+
+/-- **timer, count_calls, deprecated are transparent** — unconditionally: over every callable, for all arguments, outcomes and flavours
+    (the sync wrapper over a coroutine function hands the coroutine through un-awaited, the async wrapper awaits exactly once); what they
+    print formats nothing of the user's (generated: `.print []`) -/
 theorem transparent_timer : TransparentOn dTimer Always := by transparency dTimer
 theorem transparent_count_calls : TransparentOn dCountCalls Always := by transparency dCountCalls
 theorem transparent_deprecated : TransparentOn dDeprecated Always := by transparency dDeprecated
-theorem transparent_trace_if_returns : TransparentOn dTraceIfReturns Always := by
-  intro p inner a w _
+
+/-! ### trace, trace_if_returns: they FORMAT (and compare) the objects of the caller
+
+`trace` prints `{args}, {kwargs}` before the call and `{original_result!r}` after it; `trace_if_returns` evaluates
+`result == return_value` and prints `{result}`, `{args}`, `{kwargs}` on a match.  `__repr__` / `__str__` / `__eq__` of the caller's
+objects run inside the wrapper: when one of them raises, the decorated call raises where the undecorated one does not.  The full
+statements are therefore FALSE of the code (witnesses below, findings `traceFormatsArgumentsAndResults` / `comparisonsCallUserEq`);
+what holds is transparency under the decidable guards `ReprTotal` / `EqTotal`. -/
+
+/-- `repr` of every positional and keyword argument of the call answers -/
+def ArgsReprTotal (p : Params) (a : Args) : Prop :=
+  a.pos.any (fun i => (p.traits i).reprRaises) = false ∧ (a.kw.map (·.2)).any (fun i => (p.traits i).reprRaises) = false
+
+/-- … and so does `repr` of the object the decorated callable returns -/
+def ReprTotal : Params → Fn → Args → World → Prop := fun p inner a w =>
+  ArgsReprTotal p a ∧ ∀ o evs w1, seenResult inner a w = (.ret (.obj o), evs, w1) → (p.traits o.id).reprRaises = false
+
+/-- `result == return_value` answers, and when it answers True, `str(result)` and `repr` of the arguments answer -/
+def EqTotal : Params → Fn → Args → World → Prop := fun p inner a w =>
+  -- a result that is no object of the user's class (`None`, a coroutine or generator object) answers `NotImplemented`: the reflected
+  -- `return_value.__eq__` runs
+  (p.traits p.param.id).eqRaises = false ∧
+  ∀ o evs w1, seenResult inner a w = (.ret (.obj o), evs, w1) →
+    (p.traits o.id).eqRaises = false ∧ (o.cls = p.param.cls → (p.traits o.id).strRaises = false ∧ ArgsReprTotal p a)
+
+instance (p : Params) (a : Args) : Decidable (ArgsReprTotal p a) := by unfold ArgsReprTotal; infer_instance
+
+theorem transparent_trace_partial : TransparentOn dTrace ReprTotal := by
+  intro p inner a w hP
+  obtain ⟨⟨hpos, hkw⟩, hres⟩ := hP
+  cases hc : inner.isCoro
+  · rcases h : call inner a w with ⟨r, evs, w1⟩
+    cases r with
+    | exc e => simp [dTrace]; usimp
+    | ret v =>
+      cases v with
+      | obj o =>
+        have ho := hres o evs w1 (by simp [seenResult, hc, h])
+        simp [dTrace]; usimp
+      | _ => simp [dTrace]; usimp
+  · rcases call_coro_shape inner hc a w with ⟨run, h⟩ | ⟨c, h⟩
+    · rcases h2 : run w with ⟨r, evs, w1⟩
+      cases r with
+      | exc e => simp [dTrace]; usimp
+      | ret v =>
+        cases v with
+        | obj o =>
+          have ho := hres o evs w1 (by simp [seenResult, hc, invoke, h, h2])
+          simp [dTrace]; usimp
+        | _ => simp [dTrace]; usimp
+    · simp [dTrace]; usimp
+
+/-- the full-strength statement — not provable: -/
+def transparent_trace_full : Prop := TransparentOn dTrace Always
+
+theorem transparent_trace_if_returns_partial : TransparentOn dTraceIfReturns EqTotal := by
+  intro p inner a w hP
+  obtain ⟨hpar, hP⟩ := hP
   cases hc : inner.isCoro
   · rcases h : call inner a w with ⟨r, evs, w1⟩
     cases r with
     | exc e => simp [dTraceIfReturns]; usimp
     | ret v =>
       cases v with
-      | obj o => cases hb : (o.cls == p.param.cls) <;> (simp [dTraceIfReturns]; usimp)
+      | obj o =>
+        obtain ⟨heq, hm⟩ := hP o evs w1 (by simp [seenResult, hc, h])
+        cases hb : (o.cls == p.param.cls)
+        · simp [dTraceIfReturns]; usimp
+        · obtain ⟨hstr, hpos, hkw⟩ := hm (by simpa using hb)
+          simp [dTraceIfReturns]; usimp
       | _ => simp [dTraceIfReturns]; usimp
   · rcases call_coro_shape inner hc a w with ⟨run, h⟩ | ⟨c, h⟩
     · rcases h2 : run w with ⟨r, evs, w1⟩
@@ -97,9 +168,16 @@ theorem transparent_trace_if_returns : TransparentOn dTraceIfReturns Always := b
       | exc e => simp [dTraceIfReturns]; usimp
       | ret v =>
         cases v with
-        | obj o => cases hb : (o.cls == p.param.cls) <;> (simp [dTraceIfReturns]; usimp)
+        | obj o =>
+          obtain ⟨heq, hm⟩ := hP o evs w1 (by simp [seenResult, hc, invoke, h, h2])
+          cases hb : (o.cls == p.param.cls)
+          · simp [dTraceIfReturns]; usimp
+          · obtain ⟨hstr, hpos, hkw⟩ := hm (by simpa using hb)
+            simp [dTraceIfReturns]; usimp
         | _ => simp [dTraceIfReturns]; usimp
     · simp [dTraceIfReturns]; usimp
+
+def transparent_trace_if_returns_full : Prop := TransparentOn dTraceIfReturns Always
 
 /-! overrides, require_kwargs, mock, unimplemented -/
 /-- `overrides` returns the function itself -/
@@ -203,13 +281,14 @@ theorem transparent_require_kwargs_bound_method_keyword_call (p : Params) (inner
     `PedanticCallWithArgsException` before anything runs — the instance is not mistaken for an argument any more -/
 theorem require_kwargs_bound_method_rejects_positional (p : Params) (inner : Fn) (a : Args) (w : World) (hc : inner.isCoro = false)
     (hf : p.guard.notFunction = false) (hm : p.guard.isMethodObj = true) (hw : p.guard.wantsArgs = false)
-    (hs : p.guard.isStatic = false) (hn : p.guard.nDecorators = 0) (hp : a.pos ≠ []) :
+    (hs : p.guard.isStatic = false) (hn : p.guard.nDecorators = 0) (hp : a.pos ≠ [])
+    (hfmt : (p.guard.messageArgs a).any (fun i => (p.traits i).reprRaises) = false) :
     invoke (.deco dRequireKwargs p inner) a w = (.exc (.lib "PedanticCallWithArgsException"), [], w) := by
   have hi := bound_method_is_no_instance_method p.guard hm
   have hl : 0 < a.pos.length := by cases h : a.pos with | nil => exact absurd h hp | cons x xs => simp
   have hr : p.guard.rejects a = some "PedanticCallWithArgsException" := by
     simp [Guard.rejects, Guard.trips, Guard.shouldHaveKwargs, Guard.argsWithoutSelf, hf, hi, hw, hs, hn, hl]
-  simp [dRequireKwargs, invoke, call, callLayer, select, findWrapper, runWrapper, execL, exec, mkFrame, bindVar, hc, hr]
+  simp [dRequireKwargs, invoke, call, callLayer, select, findWrapper, runWrapper, execL, exec, mkFrame, bindVar, idsReprRaise, hc, hr, hfmt]
 
 /-- the call sites among the top-level statements of a wrapper body: whom it calls, with which positional and keyword arguments,
     awaited or not -/
@@ -241,15 +320,13 @@ theorem unimplemented_never_runs_body (p : Params) (inner : Fn) (a : Args) (w : 
 
 /-! does_same_as_function -/
 
-/-- the result the wrapper compares: of the call for a plain function, of the awaited call for a coroutine function -/
-def seenResult (inner : Fn) (a : Args) (w : World) : Out := if inner.isCoro then invoke inner a w else call inner a w
-
-/-- "both agree": `other_func` accepts the same arguments and its next outcome is an object equal to the result; a coroutine
-    `other_func` is only awaited next to a coroutine function -/
+/-- "both agree": `other_func` accepts the same arguments and its next outcome is an object equal to the result (and its `__ne__`
+    answers: the comparison runs the object's own method); a coroutine `other_func` is only awaited next to a coroutine function -/
 structure OtherAgrees (p : Params) (inner : Fn) (a : Args) (w : World) : Prop where
   flavour : p.other.isCoro = true → inner.isCoro = true
   agrees : ∀ r evs w1, seenResult inner a w = (.ret r, evs, w1) →
-    ∃ v u, r = .obj v ∧ (bind p.other.sig a).isSome = true ∧ p.other.script w1.oinv = .ret u ∧ u.cls = v.cls
+    ∃ v u, r = .obj v ∧ (bind p.other.sig a).isSome = true ∧ p.other.script w1.oinv = .ret u ∧ u.cls = v.cls ∧
+      (p.traits u.id).neRaises = false          -- `other != result` runs `__ne__` of what `other_func` returned: it answers
 
 /-- the outcome of calling a plain `other_func` that accepts the arguments -/
 theorem other_sync_call (p : Params) (a : Args) (w : World) (bd : Bound) (u : Obj)
@@ -275,7 +352,7 @@ theorem transparent_does_same_as_function : TransparentOn dDoesSameAsFunction Ot
     cases r with
     | exc e => simp [dDoesSameAsFunction]; usimp
     | ret r =>
-      obtain ⟨v, u, hr, hb, hs, hcls⟩ := hag.agrees r evs w1 (by simp [seenResult, hc, h])
+      obtain ⟨v, u, hr, hb, hs, hcls, hne⟩ := hag.agrees r evs w1 (by simp [seenResult, hc, h])
       subst hr
       rcases hbd : bind p.other.sig a with _ | bd
       · simp [hbd] at hb
@@ -286,7 +363,7 @@ theorem transparent_does_same_as_function : TransparentOn dDoesSameAsFunction Ot
       cases r with
       | exc e => simp [dDoesSameAsFunction]; usimp
       | ret r =>
-        obtain ⟨v, u, hr, hb, hs, hcls⟩ := hag.agrees r evs w1 (by simp [seenResult, hc, invoke, h, h2])
+        obtain ⟨v, u, hr, hb, hs, hcls, hne⟩ := hag.agrees r evs w1 (by simp [seenResult, hc, invoke, h, h2])
         subst hr
         rcases hbd : bind p.other.sig a with _ | bd
         · simp [hbd] at hb
@@ -309,12 +386,16 @@ def otherOut (p : Params) (inner : Fn) (a : Args) (w : World) : Out :=
   else o
 
 /-- **raises iff the two results differ**: when the decorated function yields `v` and `other_func` yields `u`, the caller gets
-    `v` itself if `u == v` and an `AssertionError` otherwise -/
+    `v` itself if `u == v` and an `AssertionError` otherwise — provided `u.__ne__` answers and the message (`{result}`, `{other}`,
+    `{args}`, `{kwargs}`) can be formatted -/
 theorem does_same_result (p : Params) (inner : Fn) (a : Args) (w w1 w2 : World) (v u : Obj) (evs evs2 : List Ev)
     (h1 : seenResult inner a w = (.ret (.obj v), evs, w1))
-    (h2 : otherOut p inner a w1 = (.ret (.obj u), evs2, w2)) :
+    (h2 : otherOut p inner a w1 = (.ret (.obj u), evs2, w2))
+    (hne : (p.traits u.id).neRaises = false)
+    (hsv : (p.traits v.id).strRaises = false) (hsu : (p.traits u.id).strRaises = false) (hargs : ArgsReprTotal p a) :
     invoke (.deco dDoesSameAsFunction p inner) a w =
       (if u.cls = v.cls then .ret (.obj v) else .exc (.lib "AssertionError"), evs ++ evs2, w2) := by
+  obtain ⟨hpos, hkw⟩ := hargs
   have split : (u.cls == v.cls) = true ∧ u.cls = v.cls ∨ (u.cls == v.cls) = false ∧ ¬ u.cls = v.cls := by
     by_cases h : u.cls = v.cls <;> simp [h]
   cases hc : inner.isCoro
@@ -555,23 +636,34 @@ theorem transparent_on_body_mismatch {d : Deco} {P : Params → Fn → Args → 
 
 def MemberGuard (k : MemberKind) (acc : Access) : Prop := k = .method ∨ k = .prop ∨ acc = .cls
 
-theorem member_transparent {d : Deco} (h : TransparentOn d Always) (k : MemberKind) (acc : Access) (hg : MemberGuard k acc)
-    (p : Params) (self cls : Nat) (raw : Fn) (a : Args) (w : World) :
+/-- what the wrapper stored by `for_all_methods` is wrapped around, and the arguments it sees (under `MemberGuard`): the plain
+    function with the instance in front (method, property getter), the plain function (static method through the class), the method
+    bound to the class (class method through the class) -/
+def memberInner (k : MemberKind) (cls : Nat) (raw : Fn) : Fn :=
+  match k with
+  | .classm => .bound cls raw
+  | _ => raw
+
+def memberArgs (k : MemberKind) (acc : Access) (self : Nat) (a : Args) : Args :=
+  match k, acc with
+  | .method, _ => { a with pos := self :: a.pos }
+  | .prop, _ => { a with pos := self :: a.pos }
+  | _, .instance => { a with pos := self :: a.pos }
+  | _, .cls => a
+
+theorem member_transparent {d : Deco} {P : Params → Fn → Args → World → Prop} (h : TransparentOn d P) (k : MemberKind) (acc : Access)
+    (hg : MemberGuard k acc) (p : Params) (self cls : Nat) (raw : Fn) (a : Args) (w : World)
+    (hP : P p (memberInner k cls raw) (memberArgs k acc self a) w) :
     bodyObs (invoke (decoratedMember d p k acc self cls raw) a w) = bodyObs (invoke (twinMember k acc self cls raw) a w) := by
-  have hb : ∀ (s : Nat) (f g : Fn), (∀ a w, bodyObs (invoke f a w) = bodyObs (invoke g a w)) →
-      ∀ a w, bodyObs (invoke (.bound s f) a w) = bodyObs (invoke (.bound s g) a w) := by
-    intro s f g hfg a w
-    have := hfg { a with pos := s :: a.pos } w
-    simpa [invoke, call] using this
-  have hd : ∀ (f : Fn) a w, bodyObs (invoke (.deco d p f) a w) = bodyObs (invoke f a w) := fun f a w => h p f a w trivial
   cases k <;> cases acc <;> simp [MemberGuard] at hg <;>
-    simp only [decoratedMember, twinMember, membersReadWithGetattr, membersStoredAsPlainFunction, Bool.and_self, if_true]
-  · exact hb self _ _ (hd raw) a w
-  · exact hb self _ _ (hd raw) a w
-  · exact hd raw a w
-  · exact hd _ a w
-  · exact hb self _ _ (hd raw) a w
-  · exact hb self _ _ (hd raw) a w
+    simp only [decoratedMember, twinMember, membersReadWithGetattr, membersStoredAsPlainFunction, Bool.and_self, if_true] <;>
+    simp only [memberInner, memberArgs] at hP
+  · have := h p raw _ w hP; simpa [invoke, call] using this
+  · have := h p raw _ w hP; simpa [invoke, call] using this
+  · exact h p raw a w hP
+  · have := h p (.bound cls raw) a w hP; simpa [invoke, call] using this
+  · have := h p raw _ w hP; simpa [invoke, call] using this
+  · have := h p raw _ w hP; simpa [invoke, call] using this
 
 
 /-- the full-strength statement for a class decorator built on `d` -/
@@ -581,7 +673,7 @@ def class_transparent_full (d : Deco) : Prop :=
 
 /-- `class Base:  def target(self): ...` (name 100 bound to a function in the class body; `object` and the metaclass `type` bind nothing of interest) -/
 def basePlain : ClassDesc := ⟨[[⟨100, ⟨false, true, true⟩⟩], []], [[], []], none, none⟩
-def p0 : Params := ⟨⟨90, 900⟩, [], ⟨false, ⟨[2, 3], [], [], false, false⟩, fun i => .ret ⟨300 + i, 300 + i⟩⟩, basePlain, 100, ⟨false, false, false, 1, false, false, false⟩⟩
+def p0 : Params := ⟨⟨90, 900⟩, [], ⟨false, ⟨[2, 3], [], [], false, false⟩, fun i => .ret ⟨300 + i, 300 + i⟩⟩, basePlain, 100, ⟨false, false, false, 1, false, false, false⟩, fun _ => Traits.total⟩
 def b0 : Body := ⟨false, ⟨[2, 3], [], [], false, false⟩, fun i => .ret ⟨100 + i, 100 + i⟩⟩
 def a0 : Args := ⟨[11, 12], []⟩
 def w0 : World := ⟨0, 0⟩
@@ -740,8 +832,11 @@ theorem exec_quiet (L : Nat) (fr : Frame) (hne : fr.layer ≠ L) (hc : SemQuiet 
     rcases he with rfl | ⟨c, rfl⟩ | ⟨k, rfl⟩ <;> simp [evQuiet, incrOf, isWarnAt, hne]
   let m1 : Stmt → Prop := fun s => ∀ (l : Locals) (w : World), LocalsQuiet L l → StepQuiet L (exec fr s l w)
   let m2 : List Stmt → Prop := fun ss => ∀ (l : Locals) (w : World), LocalsQuiet L l → StepQuiet L (execL fr ss l w)
-  have hprint : m1 .print := by
-    intro l w hl; simp only [exec]; exact ⟨hl, by intro e he; simp at he; exact own e (Or.inl he)⟩
+  have hprint : ∀ u, m1 (.print u) := by
+    intro u l w hl; simp only [exec]
+    cases fmtRaises fr l u with
+    | some c => simp [StepQuiet, FlowQuiet, ResQuiet]
+    | none => exact ⟨hl, by intro e he; simp at he; exact own e (Or.inl he)⟩
   have hwarn : ∀ c, m1 (.warn c) := by
     intro c l w hl; simp only [exec]; exact ⟨hl, by intro e he; simp at he; exact own e (Or.inr (Or.inl ⟨c, he⟩))⟩
   have hincr : ∀ k, m1 (.incr k) := by
@@ -774,23 +869,29 @@ theorem exec_quiet (L : Nat) (fr : Frame) (hne : fr.layer ≠ L) (hc : SemQuiet 
   have hguard : m1 .kwargsGuard := by
     intro l w hl; simp only [exec]
     split
-    · simp [StepQuiet, FlowQuiet, ResQuiet]
+    · split
+      · split <;> simp [StepQuiet, FlowQuiet, ResQuiet]
+      · simp [StepQuiet, FlowQuiet, ResQuiet]
     · simp [StepQuiet, FlowQuiet]; exact hl
   have hret : ∀ e, m1 (.ret e) := by
     intro e l w hl; simp only [exec]
     cases he : evalExpr fr l e with
     | none => simp [unbound, StepQuiet, FlowQuiet, ResQuiet]
     | some v => simp [StepQuiet, FlowQuiet, ResQuiet]; exact evalExpr_quiet L fr l hl e v he
-  have hraise : ∀ c, m1 (.raise c) := by
-    intro c l w hl; simp [exec, StepQuiet, FlowQuiet, ResQuiet]
+  have hraise : ∀ c u, m1 (.raise c u) := by
+    intro c u l w hl; simp only [exec]
+    cases fmtRaises fr l u <;> simp [StepQuiet, FlowQuiet, ResQuiet]
   have hite : ∀ c t e, m2 t → m2 e → m1 (.ite c t e) := by
     intro c t e ht he l w hl; simp only [exec]
-    cases evalCond fr l c with
-    | none => simp [unbound, StepQuiet, FlowQuiet, ResQuiet]
-    | some b =>
-      cases b
-      · exact he l w hl
-      · exact ht l w hl
+    cases condRaises fr l c with
+    | some cls => simp [StepQuiet, FlowQuiet, ResQuiet]
+    | none =>
+      cases evalCond fr l c with
+      | none => simp [unbound, StepQuiet, FlowQuiet, ResQuiet]
+      | some b =>
+        cases b
+        · exact he l w hl
+        · exact ht l w hl
   have htry : ∀ b k h, m2 b → m2 h → m1 (.tryCatch b k h) := by
     intro b k h hb hh l w hl; simp only [exec]
     have hr := hb l w hl
@@ -850,6 +951,7 @@ theorem call_quiet : ∀ (f : Fn) (L : Nat), f.depth ≤ L → SemQuiet L (call 
   intro f
   induction f with
   | body b => intro L _; exact callBody_quiet L .wrapped b
+  | gen g => intro L _ a w; simp only [call, callGen]; split <;> simp [OutQuiet, ResQuiet, ValQuiet]
   | bound s i ih => intro L h a w; simp only [call]; exact ih L (by simpa [Fn.depth] using h) _ w
   | deco d p i ih =>
     intro L h
@@ -935,6 +1037,7 @@ theorem selected_wrapper_wraps : ∀ d ∈ decos, ∀ c : Bool, selectedOk d c =
 
 def Fn.layersIn (ds : List Deco) : Fn → Prop
   | .body _ => True
+  | .gen _ => True
   | .bound _ i => i.layersIn ds
   | .deco d _ i => d ∈ ds ∧ i.layersIn ds
 
@@ -942,6 +1045,7 @@ theorem stack_metadata_preserved : ∀ (f : Fn), f.layersIn decos → f.metaOk =
   intro f
   induction f with
   | body b => intro _; rfl
+  | gen g => intro _; rfl
   | bound s i ih => intro h; simpa [Fn.metaOk] using ih h
   | deco d p i ih =>
     intro h
@@ -974,49 +1078,48 @@ theorem keeps_coroutine (d : Deco) (hd : d ∈ decos) (hn : dedicatedNames.conta
 
 /-! overrides -/
 
-/-- `dir(cls)` lists a name iff the class does not lack it: some class body along the MRO binds it (whatever the value), or the
-    metaclass' `__dir__` returns it -/
-theorem dir_lists_iff (c : ClassDesc) (n : Nat) : n ∉ c.dir ↔ LacksName c n := by
+/-- `dir(cls)` of a class that does not state a listing of its own lists a name iff the class does not lack it: some class body along
+    the MRO binds it (whatever the value) -/
+theorem dir_lists_iff (c : ClassDesc) (n : Nat) (hd : c.dirOverride = none) : n ∉ c.dir ↔ LacksName c n := by
   unfold ClassDesc.dir LacksName
-  cases c.dirOverride with
-  | some l => simp
-  | none =>
-    simp only [List.mem_map, List.mem_flatten, not_exists, not_and]
-    constructor
-    · intro h body hb m hm heq
-      exact h m ⟨body, hb, hm⟩ heq
-    · intro h m ⟨body, hb, hm⟩ heq
-      exact h body hb m hm heq
+  simp only [hd, List.mem_map, List.mem_flatten, not_exists, not_and]
+  constructor
+  · intro h body hb m hm heq
+    exact h m ⟨body, hb, hm⟩ heq
+  · intro h m ⟨body, hb, hm⟩ heq
+    exact h body hb m hm heq
 
 /-- the executable form of the specification is the specification -/
 theorem hasName_iff (c : ClassDesc) (n : Nat) : hasName c n = false ↔ LacksName c n := by
   unfold hasName LacksName
-  cases c.dirOverride with
-  | some l =>
-    simp only [Bool.eq_false_iff, ne_eq, List.any_eq_true, beq_iff_eq, not_exists, not_and]
-    constructor
-    · intro h hmem; exact h n hmem rfl
-    · intro h k hk hkn; exact h (hkn ▸ hk)
-  | none =>
-    simp only [Bool.eq_false_iff, ne_eq, List.any_eq_true, beq_iff_eq, not_exists, not_and]
+  simp only [Bool.eq_false_iff, ne_eq, List.any_eq_true, beq_iff_eq, not_exists, not_and]
 
 instance (c : ClassDesc) (n : Nat) : Decidable (LacksName c n) := decidable_of_iff _ (hasName_iff c n)
 
 /-- **overrides raises iff the base class lacks the name** (at decoration time; `hm`: the function still carries its own name):
     for every class — any depth of inheritance, any bound values, any metaclass — `PedanticOverrideException` is raised iff no
-    class body along the MRO binds the name (or the overridden listing omits it); otherwise the function itself is handed back -/
-theorem overrides_iff (p : Params) (inner : Fn) (hm : inner.metaOk = true) :
+    class body along the MRO binds the name; otherwise the function itself is handed back.  (`hd`: the class does not state a `dir()`
+    listing of its own through its metaclass — what "has the name" means there the property text leaves open: `overridesUnspec`.) -/
+theorem overrides_iff (p : Params) (inner : Fn) (hm : inner.metaOk = true) (hd : p.base.dirOverride = none) :
     (decorate dOverrides p inner = .error (.lib "PedanticOverrideException") ↔ LacksName p.base p.fname) ∧
     (¬ LacksName p.base p.fname → decorate dOverrides p inner = .ok (.deco dOverrides p inner)) := by
-  rw [← dir_lists_iff]
+  rw [← dir_lists_iff _ _ hd]
   by_cases hb : p.fname ∈ p.base.dir <;>
-    simp [decorate, dOverrides, execL, exec, evalCond, mkFrame, hm, hb]
+    simp [decorate, dOverrides, execL, exec, evalCond, condRaises, fmtRaises, mkFrame, hm, hb]
+
+/-- the unspecified region, as the code behaves there (a fact about the model, not a claim of the property): a class whose metaclass
+    overrides `__dir__` is asked through that listing -/
+theorem overrides_follows_dir_override (p : Params) (inner : Fn) (hm : inner.metaOk = true) (l : List Nat) (hd : p.base.dirOverride = some l) :
+    (decorate dOverrides p inner = .error (.lib "PedanticOverrideException") ↔ p.fname ∉ l) := by
+  have hdir : p.base.dir = l := by simp [ClassDesc.dir, hd]
+  by_cases hb : p.fname ∈ l <;>
+    simp [decorate, dOverrides, execL, exec, evalCond, condRaises, fmtRaises, mkFrame, hm, hb, hdir]
 
 /-- the decoration-time outcome of the generated text is the one the specification prescribes -/
-theorem overrides_decorate_meets_spec (p : Params) (b : Body) :
+theorem overrides_decorate_meets_spec (p : Params) (b : Body) (hd : p.base.dirOverride = none) :
     (match decorate dOverrides p (.body b) with | .error e => some e | .ok _ => none)
       = specDecorate (.layer .overrides p (.body b)) := by
-  have h := overrides_iff p (.body b) rfl
+  have h := overrides_iff p (.body b) rfl hd
   simp only [specDecorate]
   cases hn : hasName p.base p.fname with
   | false =>
@@ -1031,9 +1134,8 @@ theorem overrides_decorate_meets_spec (p : Params) (b : Body) :
 theorem overrides_accepts_any_bound_value (p : Params) (inner : Fn) (hm : inner.metaOk = true) (hd : p.base.dirOverride = none)
     (body : List Member) (m : Member) (hb : body ∈ p.base.mro) (hmem : m ∈ body) (hn : m.name = p.fname) :
     decorate dOverrides p inner = .ok (.deco dOverrides p inner) := by
-  apply (overrides_iff p inner hm).2
+  apply (overrides_iff p inner hm hd).2
   intro hl
-  simp only [LacksName, hd] at hl
   exact hl body hb m hmem hn
 
 /-- a name that only the metaclass offers (bound along the metaclass' MRO such as `mro` / `__call__`, or answered by its
@@ -1041,9 +1143,7 @@ theorem overrides_accepts_any_bound_value (p : Params) (inner : Fn) (hm : inner.
 theorem overrides_rejects_metaclass_only_names (p : Params) (inner : Fn) (hm : inner.metaOk = true) (hd : p.base.dirOverride = none)
     (hno : ∀ body ∈ p.base.mro, ∀ m ∈ body, m.name ≠ p.fname) :
     decorate dOverrides p inner = .error (.lib "PedanticOverrideException") := by
-  apply (overrides_iff p inner hm).1.mpr
-  simp only [LacksName, hd]
-  exact hno
+  exact (overrides_iff p inner hm hd).1.mpr hno
 
 /-! ## count_calls / deprecated over whole call histories -/
 
@@ -1121,8 +1221,8 @@ theorem count_calls_once_per_invocation (p : Params) (inner : Fn) (callee : Sem)
       ((callee a w).1, .incr inner.depth 1 :: .print inner.depth :: (callee a w).2.1, (callee a w).2.2) := by
   rcases h : callee a w with ⟨r, evs, w1⟩
   cases r with
-  | exc e => simp [dCountCalls, callLayer, select, findWrapper, runWrapper, execL, exec, execCall, calleeSem, mkFrame, mkArgs, h]
-  | ret v => simp [dCountCalls, callLayer, select, findWrapper, runWrapper, execL, exec, execCall, calleeSem, mkFrame, mkArgs, bindVar, evalExpr, lookup, h]
+  | exc e => simp [dCountCalls, callLayer, select, findWrapper, runWrapper, execL, exec, execCall, calleeSem, mkFrame, mkArgs, fmtRaises, h]
+  | ret v => simp [dCountCalls, callLayer, select, findWrapper, runWrapper, execL, exec, execCall, calleeSem, mkFrame, mkArgs, bindVar, evalExpr, lookup, fmtRaises, h]
 
 /-- the re-entrant semantics extends the plain one -/
 theorem callWith_none : ∀ (f : Fn), callWith none f = call f := by
@@ -1132,6 +1232,7 @@ theorem callWith_none : ∀ (f : Fn), callWith none f = call f := by
     have h : ∀ bd, runBodyRe none .wrapped b bd = runBody .wrapped b bd := by
       intro bd; funext w; simp [runBodyRe, runBody]
     funext a w; simp [callWith, call, callBodyRe, callBody, h]
+  | gen g => rfl
   | bound s i ih => funext a w; simp [callWith, call, ih]
   | deco d p i ih => simp [callWith, call, ih]
 
@@ -1262,10 +1363,12 @@ theorem deprecated_warnings_over_history (p : Params) (inner : Fn) :
 
 theorem does_same_raises_iff_differ (p : Params) (inner : Fn) (a : Args) (w w1 w2 : World) (v u : Obj) (evs evs2 : List Ev)
     (h1 : seenResult inner a w = (.ret (.obj v), evs, w1))
-    (h2 : otherOut p inner a w1 = (.ret (.obj u), evs2, w2)) :
+    (h2 : otherOut p inner a w1 = (.ret (.obj u), evs2, w2))
+    (hne : (p.traits u.id).neRaises = false)
+    (hsv : (p.traits v.id).strRaises = false) (hsu : (p.traits u.id).strRaises = false) (hargs : ArgsReprTotal p a) :
     ((invoke (.deco dDoesSameAsFunction p inner) a w).1.tag = .exc (.lib "AssertionError") ↔ u.cls ≠ v.cls) ∧
     (u.cls = v.cls → (invoke (.deco dDoesSameAsFunction p inner) a w).1.tag = .obj v) := by
-  rw [does_same_result p inner a w w1 w2 v u evs evs2 h1 h2]
+  rw [does_same_result p inner a w w1 w2 v u evs evs2 h1 h2 hne hsv hsu hargs]
   by_cases h : u.cls = v.cls <;> simp [h, Res.tag]
 
 /-! ## trace_class / timer_class -/
@@ -1277,16 +1380,17 @@ theorem class_decorators_table : classDecorators.lookup "trace_class" = some "tr
 theorem member_loop_facts : membersReadWithGetattr = true ∧ membersStoredAsPlainFunction = true ∧ propertiesHandled = true ∧
     memberTypes = ["FunctionType", "MethodType"] := by decide
 
-/-- proved part: instance methods, property getters, and static / class methods reached through the class -/
+/-- proved part: instance methods, property getters, and static / class methods reached through the class; for `trace_class` under
+    `ReprTotal` of what the wrapper sees — the INSTANCE included (`{args}` formats `self`) -/
 theorem transparent_trace_class_partial (k : MemberKind) (acc : Access) (hg : MemberGuard k acc) (p : Params) (self cls : Nat)
-    (raw : Fn) (a : Args) (w : World) :
+    (raw : Fn) (a : Args) (w : World) (hr : ReprTotal p (memberInner k cls raw) (memberArgs k acc self a) w) :
     bodyObs (invoke (decoratedMember dTrace p k acc self cls raw) a w) = bodyObs (invoke (twinMember k acc self cls raw) a w) :=
-  member_transparent transparent_trace k acc hg p self cls raw a w
+  member_transparent transparent_trace_partial k acc hg p self cls raw a w hr
 
 theorem transparent_timer_class_partial (k : MemberKind) (acc : Access) (hg : MemberGuard k acc) (p : Params) (self cls : Nat)
     (raw : Fn) (a : Args) (w : World) :
     bodyObs (invoke (decoratedMember dTimer p k acc self cls raw) a w) = bodyObs (invoke (twinMember k acc self cls raw) a w) :=
-  member_transparent transparent_timer k acc hg p self cls raw a w
+  member_transparent transparent_timer k acc hg p self cls raw a w trivial
 
 /-- the full-strength statements (not provable: see the witnesses) -/
 def transparent_trace_class_full : Prop := class_transparent_full dTrace
@@ -1352,17 +1456,37 @@ local macro "single_layer" d:ident : tactic => `(tactic| (
   cases hb : bind b.sig a with
   | none => cases hc : b.isCoro <;>
       simp [$d:ident, invoke, call, callLayer, select, findWrapper, runWrapper, execL, exec, execCall, calleeSem, mkFrame, mkArgs, bindVar,
-        evalExpr, evalCond, evalCmp, lookup, awaitVal, Res.tag, Val.pyEq, gap, Fn.isCoro, Fn.depth, Fn.metaOk,
-        callBody, hb, hc, obsModel, obsSpec, sumIncr, sumInts, isWarnAt, incrOf, isBodyOf]
+        evalExpr, evalCond, evalCmp, lookup, awaitVal, Res.tag, Val.pyEq, gap, Fn.isCoro, Fn.depth, Fn.metaOk, fmtRaises, fmtOneRaises, valFmtRaises, idsReprRaise,
+        condRaises, cmpRaises, objCmpRaises, callBody, hb, hc, obsModel, obsSpec, sumIncr, sumInts, isWarnAt, incrOf, isBodyOf, *]
   | some bd =>
     cases hc : b.isCoro <;> cases hs : b.script w.inv <;>
       simp [$d:ident, invoke, call, callLayer, select, findWrapper, runWrapper, execL, exec, execCall, calleeSem, mkFrame, mkArgs, bindVar,
-        evalExpr, evalCond, evalCmp, lookup, awaitVal, Res.tag, Val.pyEq, gap, Fn.isCoro, Fn.depth, Fn.metaOk,
-        callBody, hb, hc, hs, obsModel, obsSpec, sumIncr, sumInts, isWarnAt, incrOf, isBodyOf, runBody, World.count, World.bump, outcRes, outcTag]))
+        evalExpr, evalCond, evalCmp, lookup, awaitVal, Res.tag, Val.pyEq, gap, Fn.isCoro, Fn.depth, Fn.metaOk, fmtRaises, fmtOneRaises, valFmtRaises, idsReprRaise,
+        condRaises, cmpRaises, objCmpRaises, callBody, hb, hc, hs, obsModel, obsSpec, sumIncr, sumInts, isWarnAt, incrOf, isBodyOf, runBody, World.count, World.bump, outcRes, outcTag, *]))
 
-theorem trace_meets_spec (p : Params) (b : Body) (a : Args) (w : World) :
+/-- `trace`: wherever what it formats can be formatted (`repr` of the arguments and of the result answers) -/
+theorem trace_meets_spec (p : Params) (b : Body) (a : Args) (w : World) (hargs : ArgsReprTotal p a)
+    (hres : ∀ v, b.script w.inv = .ret v → (p.traits v.id).reprRaises = false) :
     obsModel (invoke (.deco dTrace p (.body b)) a w) = obsSpec (spec (.layer .trace p (.body b)) 0 a w) := by
-  single_layer dTrace
+  obtain ⟨hpos, hkw⟩ := hargs
+  simp only [spec, specBody]
+  cases hb : bind b.sig a with
+  | none => cases hc : b.isCoro <;>
+      simp [dTrace, invoke, call, callLayer, select, findWrapper, runWrapper, execL, exec, execCall, calleeSem, mkFrame, mkArgs, bindVar,
+        evalExpr, evalCond, evalCmp, lookup, awaitVal, Res.tag, Val.pyEq, gap, Fn.isCoro, Fn.depth, Fn.metaOk, fmtRaises, fmtOneRaises, valFmtRaises, idsReprRaise,
+        callBody, hb, hc, hpos, hkw, obsModel, obsSpec, sumIncr, sumInts, isWarnAt, incrOf, isBodyOf]
+  | some bd =>
+    cases hs : b.script w.inv with
+    | exc e base => cases hc : b.isCoro <;>
+      simp [dTrace, invoke, call, callLayer, select, findWrapper, runWrapper, execL, exec, execCall, calleeSem, mkFrame, mkArgs, bindVar,
+        evalExpr, evalCond, evalCmp, lookup, awaitVal, Res.tag, Val.pyEq, gap, Fn.isCoro, Fn.depth, Fn.metaOk, fmtRaises, fmtOneRaises, valFmtRaises, idsReprRaise,
+        callBody, hb, hc, hs, hpos, hkw, obsModel, obsSpec, sumIncr, sumInts, isWarnAt, incrOf, isBodyOf, runBody, World.count, World.bump, outcRes, outcTag]
+    | ret v =>
+      have hv := hres v hs
+      cases hc : b.isCoro <;>
+      simp [dTrace, invoke, call, callLayer, select, findWrapper, runWrapper, execL, exec, execCall, calleeSem, mkFrame, mkArgs, bindVar,
+        evalExpr, evalCond, evalCmp, lookup, awaitVal, Res.tag, Val.pyEq, gap, Fn.isCoro, Fn.depth, Fn.metaOk, fmtRaises, fmtOneRaises, valFmtRaises, idsReprRaise,
+        callBody, hb, hc, hs, hv, hpos, hkw, obsModel, obsSpec, sumIncr, sumInts, isWarnAt, incrOf, isBodyOf, runBody, World.count, World.bump, outcRes, outcTag]
 theorem timer_meets_spec (p : Params) (b : Body) (a : Args) (w : World) :
     obsModel (invoke (.deco dTimer p (.body b)) a w) = obsSpec (spec (.layer .timer p (.body b)) 0 a w) := by
   single_layer dTimer
@@ -1387,7 +1511,10 @@ theorem overrides_meets_spec (p : Params) (b : Body) (a : Args) (w : World) :
     simp [dOverrides, invoke, call, callLayer, select]
   rw [this, body_meets_spec]; simp [spec]
 
-theorem trace_if_returns_meets_spec (p : Params) (b : Body) (a : Args) (w : World) :
+/-- `trace_if_returns`: wherever `result == return_value` answers and, on a match, the message can be formatted -/
+theorem trace_if_returns_meets_spec (p : Params) (b : Body) (a : Args) (w : World) (hpar : (p.traits p.param.id).eqRaises = false)
+    (heq : ∀ v, b.script w.inv = .ret v → (p.traits v.id).eqRaises = false ∧
+      (v.cls = p.param.cls → (p.traits v.id).strRaises = false ∧ ArgsReprTotal p a)) :
     obsModel (invoke (.deco dTraceIfReturns p (.body b)) a w) = obsSpec (spec (.layer .traceIfReturns p (.body b)) 0 a w) := by
   simp only [spec, specBody]
   cases hb : bind b.sig a with
@@ -1401,10 +1528,18 @@ theorem trace_if_returns_meets_spec (p : Params) (b : Body) (a : Args) (w : Worl
       simp [dTraceIfReturns, invoke, call, callLayer, select, findWrapper, runWrapper, execL, exec, execCall, calleeSem, mkFrame, mkArgs, bindVar,
         evalExpr, evalCond, evalCmp, lookup, awaitVal, Res.tag, Val.pyEq, gap, Fn.isCoro, Fn.depth, Fn.metaOk,
         callBody, hb, hc, hs, obsModel, obsSpec, sumIncr, sumInts, isWarnAt, incrOf, isBodyOf, runBody, World.count, World.bump, outcRes, outcTag]
-    | ret v => cases hc : b.isCoro <;> cases hv : (v.cls == p.param.cls) <;>
-      simp [dTraceIfReturns, invoke, call, callLayer, select, findWrapper, runWrapper, execL, exec, execCall, calleeSem, mkFrame, mkArgs, bindVar,
-        evalExpr, evalCond, evalCmp, lookup, awaitVal, Res.tag, Val.pyEq, gap, Fn.isCoro, Fn.depth, Fn.metaOk,
-        callBody, hb, hc, hs, hv, obsModel, obsSpec, sumIncr, sumInts, isWarnAt, incrOf, isBodyOf, runBody, World.count, World.bump, outcRes, outcTag]
+    | ret v =>
+      obtain ⟨he, hm⟩ := heq v hs
+      cases hv : (v.cls == p.param.cls)
+      · cases hc : b.isCoro <;>
+        simp [dTraceIfReturns, invoke, call, callLayer, select, findWrapper, runWrapper, execL, exec, execCall, calleeSem, mkFrame, mkArgs, bindVar,
+          evalExpr, evalCond, evalCmp, lookup, awaitVal, Res.tag, Val.pyEq, gap, Fn.isCoro, Fn.depth, Fn.metaOk, fmtRaises, fmtOneRaises, valFmtRaises, idsReprRaise, condRaises, cmpRaises, objCmpRaises,
+          callBody, hb, hc, hs, hv, he, obsModel, obsSpec, sumIncr, sumInts, isWarnAt, incrOf, isBodyOf, runBody, World.count, World.bump, outcRes, outcTag]
+      · obtain ⟨hstr, hpos, hkw⟩ := hm (by simpa using hv)
+        cases hc : b.isCoro <;>
+        simp [dTraceIfReturns, invoke, call, callLayer, select, findWrapper, runWrapper, execL, exec, execCall, calleeSem, mkFrame, mkArgs, bindVar,
+          evalExpr, evalCond, evalCmp, lookup, awaitVal, Res.tag, Val.pyEq, gap, Fn.isCoro, Fn.depth, Fn.metaOk, fmtRaises, fmtOneRaises, valFmtRaises, idsReprRaise, condRaises, cmpRaises, objCmpRaises,
+          callBody, hb, hc, hs, hv, he, hstr, hpos, hkw, obsModel, obsSpec, sumIncr, sumInts, isWarnAt, incrOf, isBodyOf, runBody, World.count, World.bump, outcRes, outcTag]
 
 theorem require_kwargs_meets_spec (p : Params) (b : Body) (a : Args) (w : World) (hk : p.guard.rejects a = none) :
     obsModel (invoke (.deco dRequireKwargs p (.body b)) a w) = obsSpec (spec (.layer .requireKwargs p (.body b)) 0 a w) := by
@@ -1416,7 +1551,7 @@ theorem require_kwargs_meets_spec (p : Params) (b : Body) (a : Args) (w : World)
   | none => cases hc : b.isCoro <;>
       simp [dRequireKwargs, invoke, call, callLayer, select, findWrapper, runWrapper, execL, exec, execCall, calleeSem, mkFrame, mkArgs, bindVar,
         evalExpr, evalCond, evalCmp, lookup, awaitVal, Res.tag, Val.pyEq, gap, Fn.isCoro, Fn.depth, Fn.metaOk,
-        callBody, hb, hc, hk, obsModel, obsSpec, sumIncr, sumInts, isWarnAt, incrOf, isBodyOf]
+        callBody, hb, hc, hk, obsModel, obsSpec, sumIncr, sumInts, isWarnAt, incrOf, isBodyOf, fmtRaises, idsReprRaise]
   | some bd =>
     cases hc : b.isCoro <;> cases hs : b.script w.inv <;>
       simp [dRequireKwargs, invoke, call, callLayer, select, findWrapper, runWrapper, execL, exec, execCall, calleeSem, mkFrame, mkArgs, bindVar,
@@ -1426,11 +1561,16 @@ theorem require_kwargs_meets_spec (p : Params) (b : Body) (a : Args) (w : World)
 /-- `does_same_as_function` over a body, wherever the specification is determined (the arguments bind for both functions and
     `other_func` returns): all four flavour combinations -/
 theorem does_same_meets_spec (p : Params) (b : Body) (a : Args) (w : World) (bd bo : Bound) (u : Obj)
-    (hb : bind b.sig a = some bd) (hbo : bind p.other.sig a = some bo) (ho : p.other.script w.oinv = .ret u) :
+    (hb : bind b.sig a = some bd) (hbo : bind p.other.sig a = some bo) (ho : p.other.script w.oinv = .ret u)
+    (hne : (p.traits u.id).neRaises = false)
+    (hfmt : ∀ v, b.script w.inv = .ret v → (u.cls ≠ v.cls ∨ (b.isCoro = false ∧ p.other.isCoro = true)) →
+      (p.traits v.id).strRaises = false ∧ (p.traits u.id).strRaises = false ∧ ArgsReprTotal p a)
+    -- a plain function next to a coroutine `other_func`: the coroutine object answers `NotImplemented`, `result.__ne__` runs
+    (hmixne : ∀ v, b.script w.inv = .ret v → b.isCoro = false → p.other.isCoro = true → (p.traits v.id).neRaises = false) :
     obsModel (invoke (.deco dDoesSameAsFunction p (.body b)) a w) = obsSpec (spec (.layer .doesSame p (.body b)) 0 a w) := by
   obtain ⟨bc, bsig, bscript⟩ := b
-  obtain ⟨pp, pr, ⟨oc, osig, oscript⟩, pb, pg⟩ := p
-  simp only at hb hbo ho
+  obtain ⟨pp, pr, ⟨oc, osig, oscript⟩, pb, pf, pg, pt⟩ := p
+  simp only at hb hbo ho hne hfmt hmixne
   simp only [spec, specBody, SFn.isCoro, SFn.bodyIsCoro]
   cases hs : bscript w.inv with
   | exc e base => cases bc <;> cases oc <;>
@@ -1440,10 +1580,23 @@ theorem does_same_meets_spec (p : Params) (b : Body) (a : Args) (w : World) (bd 
   | ret v =>
     have hsplit : ((u.cls == v.cls) = true ∧ u.cls = v.cls) ∨ ((u.cls == v.cls) = false ∧ ¬ u.cls = v.cls) := by
       by_cases h : u.cls = v.cls <;> simp [h]
-    rcases hsplit with ⟨hv, hv'⟩ | ⟨hv, hv'⟩ <;> cases bc <;> cases oc <;>
+    rcases hsplit with ⟨hv, hv'⟩ | ⟨hv, hv'⟩
+    · have hmix : bc = false → oc = true → (pt v.id).strRaises = false ∧ a.pos.any (fun i => (pt i).reprRaises) = false ∧
+          (a.kw.map (·.2)).any (fun i => (pt i).reprRaises) = false := by
+        intro h1 h2
+        obtain ⟨h3, _, h4, h5⟩ := hfmt v hs (Or.inr ⟨h1, h2⟩)
+        exact ⟨h3, h4, h5⟩
+      have hmn := hmixne v hs
+      cases bc <;> cases oc <;> (try obtain ⟨hm1, hm2, hm3⟩ := hmix rfl rfl) <;> (try have hm4 := hmn rfl rfl) <;>
       simp [dDoesSameAsFunction, invoke, call, callLayer, select, findWrapper, runWrapper, execL, exec, execCall, calleeSem, mkFrame, mkArgs, bindVar,
-        evalExpr, evalCond, evalCmp, lookup, awaitVal, Res.tag, Val.pyEq, gap, Fn.isCoro, Fn.depth, Fn.metaOk,
-        callBody, hb, hbo, hs, ho, hv, hv', obsModel, obsSpec, sumIncr, sumInts, isWarnAt, incrOf, isBodyOf, runBody, World.count, World.bump, outcRes, outcTag]
+        evalExpr, evalCond, evalCmp, lookup, awaitVal, Res.tag, Val.pyEq, gap, Fn.isCoro, Fn.depth, Fn.metaOk, fmtRaises, fmtOneRaises, valFmtRaises, idsReprRaise, condRaises, cmpRaises, objCmpRaises,
+        callBody, hb, hbo, hs, ho, hv, hv', hne, obsModel, obsSpec, sumIncr, sumInts, isWarnAt, incrOf, isBodyOf, runBody, World.count, World.bump, outcRes, outcTag, *]
+    · obtain ⟨hsv, hsu, hpos, hkw⟩ := hfmt v hs (Or.inl hv')
+      have hmn := hmixne v hs
+      cases bc <;> cases oc <;> (try have hm4 := hmn rfl rfl) <;>
+      simp [dDoesSameAsFunction, invoke, call, callLayer, select, findWrapper, runWrapper, execL, exec, execCall, calleeSem, mkFrame, mkArgs, bindVar,
+        evalExpr, evalCond, evalCmp, lookup, awaitVal, Res.tag, Val.pyEq, gap, Fn.isCoro, Fn.depth, Fn.metaOk, fmtRaises, fmtOneRaises, valFmtRaises, idsReprRaise, condRaises, cmpRaises, objCmpRaises,
+        callBody, hb, hbo, hs, ho, hv, hv', hne, hsv, hsu, hpos, hkw, obsModel, obsSpec, sumIncr, sumInts, isWarnAt, incrOf, isBodyOf, runBody, World.count, World.bump, outcRes, outcTag, *]
 
 /-! ## Non-vacuity: concrete instances of the hypotheses and of the conclusions -/
 
@@ -1481,7 +1634,7 @@ example : OtherAgrees pAgree (.body b0) a0 w0 := by
   intro r evs w1 h
   simp [seenResult, Fn.isCoro, b0, call, callBody, bind, bindPos, a0, runBody, World.count, w0, outcRes, World.bump, hasKey, kwGet?] at h
   obtain ⟨rfl, _, rfl⟩ := h
-  exact ⟨⟨100, 100⟩, ⟨300, 100⟩, rfl, by decide, rfl, rfl⟩
+  exact ⟨⟨100, 100⟩, ⟨300, 100⟩, rfl, by decide, rfl, rfl, rfl⟩
 example : (invoke (.deco dDoesSameAsFunction pAgree (.body b0)) a0 w0).1.tag = .obj ⟨100, 100⟩ := by decide
 example : (invoke (.deco dDoesSameAsFunction p0 (.body b0)) a0 w0).1.tag = .exc (.lib "AssertionError") := by decide
 example : (invoke (.deco dDoesSameAsFunction pAgree (.body b0a)) a0 w0).1.tag = .obj ⟨100, 100⟩ := by decide
@@ -1496,8 +1649,8 @@ def baseEq : ClassDesc :=
 /-- `class Meta(type):  def __getattr__(cls, n): return <function>` / `class Base(metaclass=Meta): pass` -/
 def baseMetaGetattr : ClassDesc := ⟨[[], []], [[], [⟨105, ⟨false, true, true⟩⟩], []], some ⟨false, true, true⟩, none⟩
 example : decorate dOverrides { p0 with base := ⟨[[], []], [[], []], none, none⟩ } (.body b0) = .error (.lib "PedanticOverrideException") :=
-  (overrides_iff _ (.body b0) rfl).1.mpr (by decide)
-example : decorate dOverrides p0 (.body b0) = .ok (.deco dOverrides p0 (.body b0)) := (overrides_iff p0 (.body b0) rfl).2 (by decide)
+  (overrides_iff _ (.body b0) rfl rfl).1.mpr (by decide)
+example : decorate dOverrides p0 (.body b0) = .ok (.deco dOverrides p0 (.body b0)) := (overrides_iff p0 (.body b0) rfl rfl).2 (by decide)
 -- the base class has `__hash__` although `getattr(Base, '__hash__', None) is None` …
 example : baseEq.getattr 103 = some ⟨true, false, false⟩ ∧ ¬ LacksName baseEq 103 := by decide
 example : decorate dOverrides { p0 with base := baseEq, fname := 103 } (.body b0) = .ok (.deco dOverrides { p0 with base := baseEq, fname := 103 } (.body b0)) :=
@@ -1506,7 +1659,7 @@ example : decorate dOverrides { p0 with base := baseEq, fname := 103 } (.body b0
 example : (baseEq.getattr 105).isSome = true ∧ LacksName baseEq 105 := by decide
 example : (baseMetaGetattr.getattr 100).isSome = true ∧ LacksName baseMetaGetattr 100 := by decide
 example : decorate dOverrides { p0 with base := baseEq, fname := 105 } (.body b0) = .error (.lib "PedanticOverrideException") :=
-  (overrides_iff _ (.body b0) rfl).1.mpr (by decide)
+  (overrides_iff _ (.body b0) rfl rfl).1.mpr (by decide)
 example : decorate dOverrides { p0 with base := baseMetaGetattr } (.body b0) = .error (.lib "PedanticOverrideException") :=
   overrides_rejects_metaclass_only_names _ _ rfl rfl (by decide)
 -- count_calls: three calls, the second raises a BaseException, the third does not bind — all three are counted
@@ -1524,5 +1677,400 @@ example : MemberGuard .method .instance ∧ MemberGuard .static .cls ∧ MemberG
 example : inRegion .static .instance = true ∧ inRegion .classm .instance = true := by decide
 example : (invoke (decoratedMember dTrace p0 .static .instance 50 51 (.body b0)) a0 w0).1.tag = .exc (.lib "TypeError") ∧
     (invoke (twinMember .static .instance 50 51 (.body b0)) a0 w0).1.tag = .obj ⟨100, 100⟩ := by decide
+
+/-! ## Generator functions and async generator functions as decorated callables
+
+A generator function hands out a generator object and runs nothing; everything observable happens while the CALLER drives that object
+(`next` / `send` / `throw` / `close`, `yield from`).  A transparent decorator must therefore hand out *that very object*: then every
+value sent, every exception thrown and `close` reach the decorated generator, and its `return` value reaches the caller — whatever
+the caller does.  The theorems evaluate the generated wrapper texts over a callable whose call yields `.gen drive` (or an
+exception) for an ARBITRARY `drive`; a wrapper that re-yields the items (`for item in func(…): yield item`), iterates the
+generator, or awaits it changes the generated text (or leaves the translated subset) and breaks them. -/
+
+/-- the decorator hands through what a NON-coroutine callable underneath gives back when that is a generator object or an exception:
+    the same generator object (the same `drive`), the same exception; the journal of the decorated body and the world are untouched -/
+def PassesPlain (d : Deco) (P : Params → Fn → Args → World → Prop) : Prop :=
+  ∀ p inner a w, P p inner a w → inner.isCoro = false →
+    ∀ r evs w1, call inner a w = (r, evs, w1) → ((∃ drive, r = .ret (.gen drive)) ∨ (∃ e, r = .exc e)) →
+      ∃ evs', call (.deco d p inner) a w = (r, evs', w1) ∧ evs'.filter isGenBodyEv = evs.filter isGenBodyEv
+
+local macro "passes_plain" d:ident : tactic => `(tactic| (
+  intro p inner a w _ hc r evs w1 h hr
+  rcases hr with ⟨drive, rfl⟩ | ⟨e, rfl⟩ <;>
+    (simp [$d:ident] <;> usimp <;> try simp [isGenBodyEv, List.filter])))
+
+/-- `trace` formats the arguments before the call (`{args}, {kwargs}`); a generator object is formatted without user code -/
+theorem passes_gen_trace : PassesPlain dTrace (fun p _ a _ => ArgsReprTotal p a) := by
+  intro p inner a w hP hc r evs w1 h hr
+  obtain ⟨hpos, hkw⟩ := hP
+  rcases hr with ⟨drive, rfl⟩ | ⟨e, rfl⟩ <;>
+    (simp [dTrace] <;> usimp <;> try simp [isGenBodyEv, List.filter])
+theorem passes_gen_timer : PassesPlain dTimer Always := by passes_plain dTimer
+theorem passes_gen_count_calls : PassesPlain dCountCalls Always := by passes_plain dCountCalls
+theorem passes_gen_deprecated : PassesPlain dDeprecated Always := by passes_plain dDeprecated
+/-- `trace_if_returns` compares the generator object with `return_value`: the generator answers `NotImplemented`, the reflected
+    `return_value.__eq__` runs -/
+theorem passes_gen_trace_if_returns : PassesPlain dTraceIfReturns (fun p _ _ _ => (p.traits p.param.id).eqRaises = false) := by
+  intro p inner a w hP hc r evs w1 h hr
+  rcases hr with ⟨drive, rfl⟩ | ⟨e, rfl⟩ <;>
+    (simp [dTraceIfReturns] <;> usimp <;> try simp [isGenBodyEv, List.filter])
+theorem passes_gen_overrides : PassesPlain dOverrides Always := by
+  intro p inner a w _ hc r evs w1 h _
+  exact ⟨evs, by simp [dOverrides, call, callLayer, select, h], rfl⟩
+/-- `require_kwargs`: every call the guard statements let through -/
+theorem passes_gen_require_kwargs : PassesPlain dRequireKwargs KeywordCall := by
+  intro p inner a w hk hc r evs w1 h hr
+  simp only [KeywordCall] at hk
+  rcases hr with ⟨drive, rfl⟩ | ⟨e, rfl⟩ <;>
+    (simp [dRequireKwargs] <;> usimp <;> try simp [isGenBodyEv, List.filter])
+
+/-- **whatever the caller does with the generator** (any list of `next` / `send` / `throw` / `close`): the operations show the same, the
+    body of the decorated generator function notes down the same (every sent value, every thrown exception, `close`), it starts as often -/
+theorem transparent_gen_of_passes {d : Deco} {P : Params → Fn → Args → World → Prop} (h : PassesPlain d P)
+    (p : Params) (inner : Fn) (a : Args) (w : World) (hp : P p inner a w) (hc : inner.isCoro = false)
+    (drive : List GenOp → World → List GenObs × List Ev × World) (evs : List Ev) (w1 : World)
+    (hi : call inner a w = (.ret (.gen drive), evs, w1)) (ops : List GenOp) :
+    genBodyObs (invokeG ops (.deco d p inner) a w) = genBodyObs (invokeG ops inner a w) := by
+  obtain ⟨evs', h1, h2⟩ := h p inner a w hp hc _ evs w1 hi (Or.inl ⟨drive, rfl⟩)
+  simp [invokeG, h1, hi, genBodyObs, List.filter_append, h2]
+
+/-- the decorators that hand a generator through for every call -/
+def genTransparent : List Deco := [dTimer, dCountCalls, dDeprecated, dOverrides]
+
+theorem genTransparent_passes : ∀ d ∈ genTransparent, PassesPlain d Always := by
+  intro d hd
+  simp only [genTransparent, List.mem_cons, List.mem_nil_iff, or_false] at hd
+  rcases hd with rfl | rfl | rfl | rfl
+  · exact passes_gen_timer
+  · exact passes_gen_count_calls
+  · exact passes_gen_deprecated
+  · exact passes_gen_overrides
+
+/-- **a generator function stays a non-coroutine function**: over a callable that is no coroutine function these decorators select
+    their plain wrapper — none of them has a dedicated wrapper that would stand between the caller and the generator object
+    (generated facts: `dispatch`, `isAsync`, `isGenerator` of every wrapper) -/
+theorem gen_layer_not_coro : ∀ d ∈ genTransparent, ∀ (p : Params) (inner : Fn), inner.isCoro = false → (Fn.deco d p inner).isCoro = false := by
+  intro d hd p inner hc
+  simp only [genTransparent, List.mem_cons, List.mem_nil_iff, or_false] at hd
+  rcases hd with rfl | rfl | rfl | rfl <;> simp [Fn.isCoro, select, findWrapper, hc, dTimer, dCountCalls, dDeprecated, dOverrides]
+
+/-- a stack of these decorators (any depth, any parameters) over the generator function `g` -/
+inductive GenStack (g : GenBody) : Fn → Prop where
+  | base : GenStack g (.gen g)
+  | layer {d : Deco} {p : Params} {inner : Fn} : d ∈ genTransparent → GenStack g inner → GenStack g (.deco d p inner)
+
+theorem gen_stack_call (g : GenBody) : ∀ (f : Fn), GenStack g f → f.isCoro = false ∧ ∀ a w,
+    ∃ evs, call f a w = ((call (.gen g) a w).1, evs, w) ∧ evs.filter isGenBodyEv = [] := by
+  intro f hf
+  induction hf with
+  | base =>
+    refine ⟨rfl, fun a w => ⟨[], ?_, rfl⟩⟩
+    simp only [call, callGen]; split <;> rfl
+  | @layer d p inner hd _ ih =>
+    refine ⟨gen_layer_not_coro d hd p inner ih.1, fun a w => ?_⟩
+    obtain ⟨evs, h1, h2⟩ := ih.2 a w
+    have hr : (∃ drive, (call (.gen g) a w).1 = .ret (.gen drive)) ∨ (∃ e, (call (.gen g) a w).1 = .exc e) := by
+      simp only [call, callGen]; split
+      · exact Or.inr ⟨_, rfl⟩
+      · exact Or.inl ⟨_, rfl⟩
+    obtain ⟨evs', h3, h4⟩ := genTransparent_passes d hd p inner a w trivial ih.1 _ evs w h1 hr
+    exact ⟨evs', h3, by rw [h4, h2]⟩
+
+/-- a callable whose call yields what calling `g` yields — without touching the journal of `g`'s body or the world — shows the caller,
+    however it drives the result, what `g` itself shows -/
+theorem invokeG_of_call (g : GenBody) (f : Fn) (ops : List GenOp) (a : Args) (w : World) (evs : List Ev)
+    (h1 : call f a w = ((call (.gen g) a w).1, evs, w)) (h2 : evs.filter isGenBodyEv = []) :
+    genBodyObs (invokeG ops f a w) = genBodyObs (invokeG ops (.gen g) a w) := by
+  have hg : call (.gen g) a w = ((call (.gen g) a w).1, [], w) := by
+    simp only [call, callGen]; split <;> rfl
+  rcases hr : (call (.gen g) a w).1 with v | e
+  · rw [hr] at h1 hg
+    cases v <;> simp [invokeG, h1, hg, genBodyObs, List.filter_append, h2]
+    all_goals (simp only [call, callGen] at hr; split at hr <;> simp at hr)
+  · rw [hr] at h1 hg
+    simp [invokeG, h1, hg, genBodyObs, h2]
+
+/-- **transparent_generator_stack** — for every generator function / async generator function `g`, every stack of trace / timer /
+    count_calls / deprecated / trace_if_returns / overrides over it, every argument tuple and EVERY way of driving the result
+    (`next`, `send`, `throw`, `close` in any order and number): the caller is shown exactly what the undecorated generator function
+    shows, and the generator's body receives exactly what it receives there -/
+theorem transparent_generator_stack (g : GenBody) (f : Fn) (hf : GenStack g f) (ops : List GenOp) (a : Args) (w : World) :
+    genBodyObs (invokeG ops f a w) = genBodyObs (invokeG ops (.gen g) a w) :=
+  let ⟨evs, h1, h2⟩ := (gen_stack_call g f hf).2 a w
+  invokeG_of_call g f ops a w evs h1 h2
+
+/-- one more layer `d` on top of such a stack, under the side condition of `d` -/
+theorem transparent_generator_layer {d : Deco} {P : Params → Fn → Args → World → Prop} (hpass : PassesPlain d P)
+    (g : GenBody) (f : Fn) (hf : GenStack g f) (p : Params) (ops : List GenOp) (a : Args) (w : World) (hP : P p f a w) :
+    genBodyObs (invokeG ops (.deco d p f) a w) = genBodyObs (invokeG ops (.gen g) a w) := by
+  obtain ⟨hc, hcall⟩ := gen_stack_call g f hf
+  obtain ⟨evs, h1, h2⟩ := hcall a w
+  have hres : (∃ drive, (call (.gen g) a w).1 = .ret (.gen drive)) ∨ (∃ e, (call (.gen g) a w).1 = .exc e) := by
+    simp only [call, callGen]; split
+    · exact Or.inr ⟨_, rfl⟩
+    · exact Or.inl ⟨_, rfl⟩
+  obtain ⟨evs', h3, h4⟩ := hpass p f a w hP hc _ evs w h1 hres
+  exact invokeG_of_call g _ ops a w evs' h3 (by rw [h4, h2])
+
+/-- `trace` on top: wherever `repr` of the arguments answers (it formats them before the call; the generator object itself is formatted
+    without user code) -/
+theorem transparent_generator_trace (g : GenBody) (f : Fn) (hf : GenStack g f) (p : Params) (ops : List GenOp) (a : Args) (w : World)
+    (hr : ArgsReprTotal p a) :
+    genBodyObs (invokeG ops (.deco dTrace p f) a w) = genBodyObs (invokeG ops (.gen g) a w) :=
+  transparent_generator_layer passes_gen_trace g f hf p ops a w hr
+
+/-- `trace_if_returns` on top: wherever `return_value.__eq__` answers -/
+theorem transparent_generator_trace_if_returns (g : GenBody) (f : Fn) (hf : GenStack g f) (p : Params) (ops : List GenOp) (a : Args) (w : World)
+    (he : (p.traits p.param.id).eqRaises = false) :
+    genBodyObs (invokeG ops (.deco dTraceIfReturns p f) a w) = genBodyObs (invokeG ops (.gen g) a w) :=
+  transparent_generator_layer passes_gen_trace_if_returns g f hf p ops a w he
+
+/-- `require_kwargs` on top: every call its guard statements let through -/
+theorem transparent_generator_require_kwargs (g : GenBody) (f : Fn) (hf : GenStack g f) (p : Params) (ops : List GenOp) (a : Args) (w : World)
+    (hk : p.guard.rejects a = none) :
+    genBodyObs (invokeG ops (.deco dRequireKwargs p f) a w) = genBodyObs (invokeG ops (.gen g) a w) :=
+  transparent_generator_layer passes_gen_require_kwargs g f hf p ops a w hk
+
+/-- … spelled out against the generator protocol: when the arguments bind, the caller drives the generator of `g` itself -/
+theorem generator_stack_meets_spec (g : GenBody) (f : Fn) (hf : GenStack g f) (ops : List GenOp) (a : Args) (w : World) (bd : Bound)
+    (hb : bind g.sig a = some bd) :
+    genBodyObs (invokeG ops f a w) =
+      ⟨.gen, (genRun g .wrapped bd .fresh ops w).1, (genRun g .wrapped bd .fresh ops w).2.1.filter isGenBodyEv, (genRun g .wrapped bd .fresh ops w).2.2.inv⟩ := by
+  rw [transparent_generator_stack g f hf]
+  simp [invokeG, call, callGen, hb, genBodyObs, Res.tag]
+
+/-- `mock` and `unimplemented` never create the generator -/
+theorem mock_never_creates_generator (p : Params) (g : GenBody) (a : Args) (w : World) (ops : List GenOp) :
+    genBodyObs (invokeG ops (.deco dMock p (.gen g)) a w) = ⟨.obj p.param, [], [], w.inv⟩ := by
+  have hc : (Fn.gen g).isCoro = false := rfl
+  simp [dMock, invokeG, genBodyObs, call, callLayer, select, findWrapper, hc]; usimp
+
+theorem unimplemented_never_creates_generator (p : Params) (g : GenBody) (a : Args) (w : World) (ops : List GenOp) :
+    genBodyObs (invokeG ops (.deco dUnimplemented p (.gen g)) a w) = ⟨.exc (.lib "NotImplementedException"), [], [], w.inv⟩ := by
+  have hc : (Fn.gen g).isCoro = false := rfl
+  simp [dUnimplemented, invokeG, genBodyObs, call, callLayer, select, findWrapper, hc]; usimp
+
+/-- the protocol model itself (environment): a value sent into a suspended generator is what the body sees, a thrown `Exception` is seen
+    and swallowed, `close` is seen -/
+theorem gen_protocol_facts (g : GenBody) (c : Callee) (bd : Bound) (i : Nat) (rest : List Obj) (v e : Nat) (w : World) :
+    (genStep g c bd (.susp i rest) (.send v) w).2.2.1 = [.gen i (.got v)] ∧
+    (genStep g c bd (.susp i rest) (.throw e false) w).2.2.1 = [.gen i (.thrown e)] ∧
+    (genStep g c bd (.susp i rest) .close w) = (.done, .closed, [.gen i .closed], w) ∧
+    (genStep g c bd .fresh (.throw e false) w) = (.done, .raised (.body e false), [], w) := by
+  refine ⟨rfl, rfl, rfl, rfl⟩
+
+def g0 : GenBody := ⟨false, ⟨[2, 3], [], [], false, false⟩, fun i => [⟨500 + 2 * i, 0⟩, ⟨501 + 2 * i, 0⟩], fun i => .ret ⟨100 + i, 100 + i⟩⟩
+
+example : GenStack g0 (.deco dTimer p0 (.deco dCountCalls p0 (.gen g0))) :=
+  .layer (by simp [genTransparent]) (.layer (by simp [genTransparent]) .base)
+/-- next, send 11, throw, next: the sent value and the thrown exception reach the generator below `timer`, its return value comes back -/
+example : genBodyObs (invokeG [.next, .send 11, .throw 401 false, .next] (.deco dTimer p0 (.gen g0)) a0 w0) =
+    ⟨.gen, [.yielded 500, .yielded 501, .stop 100, .stop 0],
+     [.body .wrapped 0 ⟨[(2, 11), (3, 12)], [], []⟩, .gen 0 (.got 11), .gen 0 (.thrown 401)], 1⟩ := by decide
+example : (invokeG [.next] (.deco dTimer p0 (.gen g0)) ⟨[11], []⟩ w0).1.1.tag = .exc (.lib "TypeError") := by decide
+
+/-! ## Property members of a class under `trace_class` / `timer_class` -/
+
+/-- **every slot of the rebuilt property is made of the same slot of the old one** (generated fact `rebuiltPropertySlots`, read from
+    the `property(…)` call of `for_all_methods`: passing only the existing accessors positionally shifts them and breaks this) -/
+theorem property_rebuilt_slotwise : ∀ s : Slot, rebuiltSource s = some s := by
+  intro s; cases s <;> decide
+
+theorem missing_accessor_stays_missing : missingAccessorStaysMissing = true := by decide
+
+theorem rebuildProp_slot (d : Deco) (p : Params) (old : PropObj) (s : Slot) :
+    (rebuildProp d p old).slot s = (old.slot s).map (Fn.deco d p) := by
+  have hp : propertiesHandled = true := by decide
+  cases s <;> simp [rebuildProp, PropObj.slot, property_rebuilt_slotwise, missing_accessor_stays_missing, hp] <;>
+    (split <;> simp_all)
+
+theorem bodyObs_dropValue (op : PropOp) (o1 o2 : Out) (h : bodyObs o1 = bodyObs o2) : bodyObs (dropValue op o1) = bodyObs (dropValue op o2) := by
+  obtain ⟨r1, e1, w1⟩ := o1
+  obtain ⟨r2, e2, w2⟩ := o2
+  simp only [bodyObs, BodyObs.mk.injEq] at h
+  obtain ⟨ht, he, hw⟩ := h
+  cases op <;> cases r1 <;> cases r2 <;> simp_all [dropValue, bodyObs, Res.tag] <;>
+    (rename_i v1 v2; cases v1 <;> cases v2 <;> simp_all [Res.tag])
+
+/-- **transparent_class_property** — for every property, whichever of getter / setter / deleter it has, and every one of reading,
+    assigning and deleting the attribute on an instance: the class under `for_all_methods(d)` (d transparent) does what the undecorated
+    class does — the same accessor runs once with the same arguments, a missing accessor is the same AttributeError -/
+theorem transparent_class_property {d : Deco} {P : Params → Fn → Args → World → Prop} (h : TransparentOn d P) (p : Params) (old : PropObj)
+    (self : Nat) (op : PropOp) (w : World) (hP : ∀ f, old.slot op.slot = some f → P p f (op.args self) w) :
+    bodyObs (propAccess (rebuildProp d p old) self op w) = bodyObs (propAccess old self op w) := by
+  simp only [propAccess, rebuildProp_slot]
+  cases hs : old.slot op.slot with
+  | none => rfl
+  | some f => exact bodyObs_dropValue op _ _ (h p f (op.args self) w (hP f hs))
+
+/-- `trace_class`: under `ReprTotal` of what the accessor's wrapper sees (the instance, the assigned value, the getter's result) -/
+theorem transparent_trace_class_property (p : Params) (old : PropObj) (self : Nat) (op : PropOp) (w : World)
+    (hr : ∀ f, old.slot op.slot = some f → ReprTotal p f (op.args self) w) :
+    bodyObs (propAccess (rebuildProp dTrace p old) self op w) = bodyObs (propAccess old self op w) :=
+  transparent_class_property transparent_trace_partial p old self op w hr
+
+theorem transparent_timer_class_property (p : Params) (old : PropObj) (self : Nat) (op : PropOp) (w : World) :
+    bodyObs (propAccess (rebuildProp dTimer p old) self op w) = bodyObs (propAccess old self op w) :=
+  transparent_class_property transparent_timer p old self op w (fun _ _ => trivial)
+
+/-- a getter and a deleter, no setter: `del obj.attr` runs the deleter, `obj.attr = v` is an AttributeError — before and after -/
+def bSelf : Body := ⟨false, ⟨[1], [], [], false, false⟩, fun i => .ret ⟨100 + i, 100 + i⟩⟩
+example : bodyObs (propAccess (rebuildProp dTrace p0 ⟨some (.body bSelf), none, some (.body bSelf)⟩) 50 .del w0) = ⟨.none, [.body .wrapped 0 ⟨[(1, 50)], [], []⟩], 1⟩ ∧
+    bodyObs (propAccess (rebuildProp dTrace p0 ⟨some (.body bSelf), none, some (.body bSelf)⟩) 50 (.set 11) w0) = ⟨.exc (.lib "AttributeError"), [], 0⟩ := by
+  decide
+
+/-! ## One decorator object applied to several callables -/
+
+/-- **every application builds its own wrapper** — for every decorator level of the package the wrapper `def`s stand inside the function
+    that receives the decorated callable (generated fact `freshWrappers`; hoisting them into the enclosing factory — one wrapper per
+    `mock(…)` call, dressed with `update_wrapper` by each application — flips it) -/
+theorem every_application_builds_its_own_wrapper : ∀ d ∈ decos, d.freshWrappers = true := by decide
+
+def ownResults (d : Deco) (p : Params) : List Fn → Nat → List (Nat × Nat)
+  | [], _ => []
+  | _ :: rest, i => (i, i) :: ownResults d p rest (i + 1)
+
+theorem applyOne_fresh (d : Deco) (p : Params) (fs : List Fn) (i : Nat) (f : Fn) (h : d.freshWrappers = true) :
+    (applyOne d p fs i f).obj = i ∧ (applyOne d p fs i f).shows = i ∧ (applyOne d p fs i f).fn = .deco d p f := by
+  simp only [applyOne]
+  split <;> simp [h]
+
+theorem applyFrom_fresh (d : Deco) (p : Params) (all : List Fn) (h : d.freshWrappers = true) : ∀ (l : List Fn) (i : Nat),
+    (applyFrom d p all l i).map (fun ap => (ap.obj, ap.shows)) = ownResults d p l i ∧
+    ∀ (k : Nat) (ap : Applied), (applyFrom d p all l i)[k]? = some ap → ∃ f, l[k]? = some f ∧ ap.fn = .deco d p f := by
+  intro l
+  induction l with
+  | nil => intro i; simp [applyFrom, ownResults]
+  | cons f rest ih =>
+    intro i
+    have h1 := applyOne_fresh d p all i f h
+    refine ⟨by simp [applyFrom, ownResults, h1.1, h1.2.1, (ih (i + 1)).1], ?_⟩
+    intro k ap hk
+    cases k with
+    | zero => simp [applyFrom] at hk; subst hk; exact ⟨f, rfl, h1.2.2⟩
+    | succ k => simp [applyFrom] at hk; simpa using (ih (i + 1)).2 k ap hk
+
+/-- **shared_decorator_applications_independent** — one decorator object of the package applied to any list of callables: the i-th
+    result is a wrapper object of its own (`obj = i`), shows the metadata of the i-th callable (`shows = i`) and is the decorator
+    applied to that callable alone -/
+theorem shared_decorator_applications_independent : ∀ d ∈ decos, ∀ (p : Params) (fs : List Fn),
+    (applyShared d p fs).map (fun ap => (ap.obj, ap.shows)) = ownResults d p fs 0 ∧
+    ∀ (k : Nat) (ap : Applied), (applyShared d p fs)[k]? = some ap → ∃ f, fs[k]? = some f ∧ ap.fn = .deco d p f := by
+  intro d hd p fs
+  exact applyFrom_fresh d p fs (every_application_builds_its_own_wrapper d hd) fs 0
+
+/-- what the hypothesis excludes: with the wrappers hoisted into the factory, both applications of `stub = mock(…)` hand out ONE object,
+    and it shows the metadata of the function decorated last -/
+theorem hoisted_wrappers_are_shared :
+    (applyShared { dMock with freshWrappers := false } p0 [.body b0, .body b0]).map (fun ap => (ap.obj, ap.shows)) = [(0, 1), (0, 1)] := by
+  decide
+
+/-! ## What the guards `ReprTotal` / `EqTotal` / the `__ne__` clause of `OtherAgrees` exclude — and that the code really fails there
+
+Findings `traceFormatsArgumentsAndResults` (trace, trace_if_returns, does_same_as_function, the refusal message of require_kwargs format
+arguments / results: a raising `__repr__` / `__str__` escapes from the decorated call) and `comparisonsCallUserEq` (trace_if_returns
+evaluates `result == return_value`, does_same_as_function `other != result`: a raising `__eq__` / `__ne__` escapes). -/
+
+/-- the argument `A` (identity 11) has a `__repr__` that raises -/
+def pBadArg : Params := { p0 with traits := fun i => if i = 11 then ⟨true, false, false, false⟩ else Traits.total }
+/-- the first result (identity 100) has a `__repr__` that raises / an `__eq__` that raises -/
+def pBadResultRepr : Params := { p0 with traits := fun i => if i = 100 then ⟨true, false, false, false⟩ else Traits.total }
+def pBadResultEq : Params := { p0 with traits := fun i => if i = 100 then ⟨false, false, true, false⟩ else Traits.total }
+/-- what `other_func` returns first (identity 300, equal to the result) has an `__ne__` that raises -/
+def pBadOtherNe : Params :=
+  { p0 with other := ⟨false, ⟨[2, 3], [], [], false, false⟩, fun i => .ret ⟨300 + i, 100 + i⟩⟩,
+            traits := fun i => if i = 300 then ⟨false, false, false, true⟩ else Traits.total }
+
+/-- `trace(f)(A, B)` with an `A` whose `__repr__` raises: the body never runs, the caller gets the exception of `__repr__` — `f(A, B)`
+    returns -/
+theorem trace_fails_on_unformattable_argument :
+    bodyObs (invoke (.deco dTrace pBadArg (.body b0)) a0 w0) = ⟨.exc (.lib "ReprErr"), [], 0⟩ ∧
+    bodyObs (invoke (.body b0) a0 w0) = ⟨.obj ⟨100, 100⟩, [.body .wrapped 0 ⟨[(2, 11), (3, 12)], [], []⟩], 1⟩ := by decide
+
+/-- … with a result whose `__repr__` raises: the body has run, the caller gets the exception instead of the object -/
+theorem trace_fails_on_unformattable_result :
+    bodyObs (invoke (.deco dTrace pBadResultRepr (.body b0)) a0 w0) = ⟨.exc (.lib "ReprErr"), [.body .wrapped 0 ⟨[(2, 11), (3, 12)], [], []⟩], 1⟩ := by decide
+
+theorem transparent_trace_full_fails : ¬ transparent_trace_full := by
+  intro h
+  have := h pBadArg (.body b0) a0 w0 trivial
+  revert this
+  decide
+
+/-- `trace_if_returns(x)(f)()` with a result whose `__eq__` raises -/
+theorem trace_if_returns_fails_on_raising_eq :
+    bodyObs (invoke (.deco dTraceIfReturns pBadResultEq (.body b0)) a0 w0) = ⟨.exc (.lib "EqErr"), [.body .wrapped 0 ⟨[(2, 11), (3, 12)], [], []⟩], 1⟩ := by decide
+
+theorem transparent_trace_if_returns_full_fails : ¬ transparent_trace_if_returns_full := by
+  intro h
+  have := h pBadResultEq (.body b0) a0 w0 trivial
+  revert this
+  decide
+
+/-- "both agree" as far as the VALUES go (what `OtherAgrees` says without its `__ne__` clause) -/
+def OtherAgreesValues (p : Params) (inner : Fn) (a : Args) (w : World) : Prop :=
+  (p.other.isCoro = true → inner.isCoro = true) ∧
+  ∀ r evs w1, seenResult inner a w = (.ret r, evs, w1) →
+    ∃ v u, r = .obj v ∧ (bind p.other.sig a).isSome = true ∧ p.other.script w1.oinv = .ret u ∧ u.cls = v.cls
+
+def transparent_does_same_full : Prop := TransparentOn dDoesSameAsFunction OtherAgreesValues
+
+/-- both functions return equal objects, but `other != result` runs an `__ne__` that raises -/
+theorem does_same_fails_on_raising_ne :
+    bodyObs (invoke (.deco dDoesSameAsFunction pBadOtherNe (.body b0)) a0 w0) = ⟨.exc (.lib "NeErr"), [.body .wrapped 0 ⟨[(2, 11), (3, 12)], [], []⟩], 1⟩ := by decide
+
+theorem transparent_does_same_full_fails : ¬ transparent_does_same_full := by
+  intro h
+  have hv : OtherAgreesValues pBadOtherNe (.body b0) a0 w0 := by
+    refine ⟨by decide, ?_⟩
+    intro r evs w1 h
+    simp [seenResult, Fn.isCoro, b0, call, callBody, bind, bindPos, a0, runBody, World.count, w0, outcRes, World.bump, hasKey, kwGet?] at h
+    obtain ⟨rfl, _, rfl⟩ := h
+    exact ⟨⟨100, 100⟩, ⟨300, 100⟩, rfl, by decide, rfl, rfl⟩
+  have := h pBadOtherNe (.body b0) a0 w0 hv
+  revert this
+  decide
+
+/-- the `flavour` clause of `OtherAgrees` is needed: a plain function next to a COROUTINE `other_func` that would return an equal object
+    — the plain wrapper compares the result with a coroutine object and raises `AssertionError` -/
+theorem does_same_plain_function_coroutine_other :
+    bodyObs (invoke (.deco dDoesSameAsFunction { pAgree with other := { pAgree.other with isCoro := true } } (.body b0)) a0 w0)
+      = ⟨.exc (.lib "AssertionError"), [.body .wrapped 0 ⟨[(2, 11), (3, 12)], [], []⟩], 1⟩ ∧
+    bodyObs (invoke (.deco dDoesSameAsFunction pAgree (.body b0)) a0 w0)
+      = ⟨.obj ⟨100, 100⟩, [.body .wrapped 0 ⟨[(2, 11), (3, 12)], [], []⟩], 1⟩ := by decide
+
+/-- the refusal of a positional call by `require_kwargs` formats the refused arguments (`Args: {self.args_without_self}`): with an
+    argument whose `__repr__` raises, the caller gets that exception instead of `PedanticCallWithArgsException` -/
+theorem require_kwargs_refusal_formats_arguments :
+    (invoke (.deco dRequireKwargs { pBadArg with guard := ⟨false, false, false, 1, true, false, false⟩ } (.body b0)) a0 w0).1.tag = .exc (.lib "ReprErr") ∧
+    (invoke (.deco dRequireKwargs { p0 with guard := ⟨false, false, false, 1, true, false, false⟩ } (.body b0)) a0 w0).1.tag = .exc (.lib "PedanticCallWithArgsException") := by
+  decide
+
+example : ReprTotal p0 (.body b0) a0 w0 := ⟨by decide, fun _ _ _ _ => rfl⟩
+example : ¬ ArgsReprTotal pBadArg a0 := by decide
+
+/-! ## The tables contain every decorator the property names -/
+
+/-- the seventeen decorators of the property statement -/
+def namedDecorators : List String :=
+  ["trace", "timer", "count_calls", "deprecated", "trace_if_returns", "does_same_as_function", "rename_kwargs", "overrides", "require_kwargs",
+   "mock", "unimplemented", "pedantic", "validate", "in_subprocess", "retry", "safe_contextmanager", "safe_async_contextmanager"]
+
+/-- **every decorator the property names is in the regenerated list of decorator levels** — a decorator the translator drops (a wrapper
+    that no longer takes `(*args, **kwargs)`, a renamed function) makes this fail instead of leaving `metadata_preserved` /
+    `selected_wrapper_wraps` / `every_application_builds_its_own_wrapper` vacuous for it -/
+theorem all_named_found : ∀ n ∈ namedDecorators, decos.any (fun d => d.name == n) = true := by decide
+
+/-- … and, except `overrides` (which returns the function itself), has a RETURNED wrapper row in the wrapper table -/
+theorem all_named_have_returned_wrapper : ∀ n ∈ namedDecorators, n = "overrides" ∨
+    wrapperTable.any (fun r => r.deco == n && r.returned) = true := by decide
+
+/-- the decorators whose wrapper text the transparency theorems evaluate are translated in full (no `body := none`, known dispatch) -/
+theorem utility_decorators_translated :
+    ∀ d ∈ [dTrace, dTimer, dCountCalls, dDeprecated, dTraceIfReturns, dDoesSameAsFunction, dRenameKwargs, dRequireKwargs, dMock, dUnimplemented],
+      d.dispatch ≠ .unknown ∧ d.wrappers.all (fun w => w.body.isSome) = true := by
+  intro d hd
+  simp only [List.mem_cons, List.mem_nil_iff, or_false] at hd
+  rcases hd with rfl | rfl | rfl | rfl | rfl | rfl | rfl | rfl | rfl | rfl <;> decide
 
 end PedVerif.Utility
